@@ -184,7 +184,14 @@ theorem push_bl : ∀ (x : SVal), frag x = true → noRaw x = true → ∀ (b : 
     exact scalar_bl hg ha hraw hcap (by simp [blameDT]) (by rw [push])
   | .unitStruct v, _, hraw => by
     intro b path dt n md hg ha hcap
-    exact scalar_bl hg ha hraw hcap (by simp [blameDT]) (by rw [push])
+    by_cases hi : (interpDT ext dt n md (.unitStruct v)).isOk = true
+    · exact bl_of_interp_ok hg hraw hcap hi
+    · have : blameDT ext path dt n md (.unitStruct v) = [path] := by simp [blameDT, hi]
+      rw [this]
+      unfold push
+      split
+      · exact Bl.ctx_self _ (by rw [ha.path]; exact List.mem_singleton.2 rfl) (NoCtx.bl _)
+      · exact pushNone_bl hg ha
   | .bytes bs, _, hraw => by
     intro b path dt n md hg ha hcap
     by_cases hi : (interpDT ext dt n md (.bytes bs)).isOk = true
